@@ -498,4 +498,58 @@ def targeted_cases(rng, n):
         # all members in order, then backwards (each step back rebuilds the decoder), then forwards again
         sc.op("cab_open", "c0", "in0.cab").op("cab_extract_all", "c0", "out", 3).op("cab_extract_all", "c0", "outr", 3, 1).op("cab_extract_all", "c0", "outf", 3).op("cab_close", "c0")
         out.append(Case("gen:cab-repair-params", "cab", sc, True, None, all_faults=True))
+    # (6) a data block split over two cabinets whose parts together exceed the input array although each part alone fits (strict and salvage mode)
+    for i in range(max(2, n // 3)):
+        salv = 1 if i % 2 == 0 else 0
+        p1, p2 = (40000, 40000) if i < 2 else (rng.choice([30000, 38912, 65535]), rng.choice([8913, 27000, 65535]))
+        fo = cabfmt.Folder(("none",), cabfmt.random_members(rng, 2, lens=[20000, 12868])); fo.prepare(rng)
+        fo.blocks = [(bytes(rng.randrange(256) for _ in range(64)) * ((p1 + p2) // 64 + 1), 32768)]; fo.blocks = [(fo.blocks[0][0][:p1 + p2], 32768)]
+        cabs, names = cabfmt.build_set([fo], [(0, 0, p1)], rng, with_ck=False)
+        sc = scenario.Scn()
+        for k, cb in enumerate(cabs): sc.file("in%d.cab" % k, cb)
+        sc.op("cab_new").op("cab_param", 3, salv).op("cab_open", "c0", "in0.cab").op("cab_open", "c1", "in1.cab").op("cab_append", "c0", "c1")
+        sc.op("cab_extract_all", "c0", "out", 4).op("cab_close", "c0")
+        out.append(Case("hostile:cab-oversize-split-block", "cab", sc))
+    # (7) Quantum folders with a window smaller than the frame (bits 10..14) over pseudo-random and damaged streams: matches that wrap the
+    #     window end at a frame boundary and overshoot the frame
+    for i in range(max(4, n)):
+        wb = [10, 11, 12, 10, 13, 14][i % 6]
+        fo = cabfmt.Folder(("qtm", wb), [cabfmt.Member(b"q%d.bin" % j, length=[3000, 33000, 30000][j]) for j in range(3)]); fo.prepare(rng)
+        if i % 2 == 0: fo.blocks = [(bytes(rng.randrange(256) for _ in range(rng.choice([300, 2000, 9000]))), u) for (pl, u) in fo.blocks]
+        else:
+            bl = []
+            for (pl, u) in fo.blocks:
+                b = bytearray(pl)
+                for _ in range(rng.choice([1, 3, 10])): b[rng.randrange(len(b))] ^= 1 << rng.randrange(8)
+                bl.append((bytes(b), u))
+            fo.blocks = bl
+        cab = cabfmt.build_single([fo], rng, with_ck=True)
+        sc = scenario.Scn().file("in0.cab", cab).op("cab_new").op("cab_param", 3, i % 3 == 2 and 1 or 0).op("cab_open", "c0", "in0.cab").op("cab_extract_all", "c0", "out", 3).op("cab_close", "c0")
+        out.append(Case("hostile:qtm-small-window", "cab", sc))
+    # (8) a CHM whose directory spans several chunks: every host call of open / find fails in turn
+    for i in range(max(1, n // 4)):
+        f0 = [(b"/index.html", b"<html>hi</html>")] + [(b"/d%02d.txt" % j, bytes([65 + j % 26]) * rng.randrange(0, 30)) for j in range(30)]
+        chm, exp = chmfmt.build(f0, [], rng, chunk_size=256, density=2, with_index=(i % 2 == 0))
+        sc = scenario.Scn().file("in0.chm", chm).op("chm_new").op("chm_open", "h0", "in0.chm").op("chm_find_all", "h0", 4).op("chm_close", "h0")
+        out.append(Case("gen:chm-multichunk-faults", "chm", sc, True, exp, all_faults=True))
+    # (9) a reset table that stops before the end of the stream (SpanInfo valid): members in the uncovered range extracted first, then again after others
+    for i in range(max(2, n // 3)):
+        f1 = [(b"/c%d.bin" % j, [30000, 40000, 20000][j]) for j in range(3)]
+        chm, exp = chmfmt.build([(b"/index.html", b"<html>hi</html>")], f1, rng, chunk_size=4096, wbits=rng.choice([15, 16]), reset_frames=1, rt_keep=1 + i % 2,
+                                rt_entry_size=rng.choice([8, 4]), version=3)
+        names = sorted(exp.keys(), key=chmfmt.sort_key); k2 = names.index(b"/c2.bin"); k1 = names.index(b"/c1.bin"); k0 = names.index(b"/c0.bin")
+        sc = scenario.Scn().file("in0.chm", chm).op("chm_new").op("chm_open", "h0", "in0.chm")
+        for k in (k2, k0, k1, k2, k1): sc.op("chm_extract", "h0", k, "o%d" % len(sc.lines))
+        sc.op("chm_close", "h0")
+        out.append(Case("gen:chm-short-reset-table", "chm", sc, True, exp))
+    # (10) a CHM cut in the middle of a directory chunk: the same name looked up twice on one fast_open()ed header (a failed chunk read must leave nothing behind)
+    for i in range(max(2, n // 3)):
+        f0 = [(b"/f%03d.txt" % j, b"x" * (j % 7)) for j in range(60)]
+        chm, exp = chmfmt.build(f0, [], rng, chunk_size=256, density=rng.choice([0, 2]), with_index=(i % 2 == 1))
+        dirstart = 0x38 + 0x28 + 0x18 + 0x54; k = 1 + i % 3
+        cut = chm[:dirstart + k * 256 + rng.choice([20, 100, 200])]
+        sc = scenario.Scn().file("in0.chm", cut).op("chm_new").op("chm_fast_open", "h0", "in0.chm")
+        for nm in (b"/f%03d.txt" % (10 * k + 8), b"/f%03d.txt" % (10 * k + 8), b"/f059.txt", b"/f059.txt", b"/f000.txt", b"/f%03d.txt" % (10 * k + 9)): sc.op("chm_find", "h0", nm.hex())
+        sc.op("chm_close", "h0")
+        out.append(Case("hostile:chm-cut-chunk-refind", "chm", sc))
     return out
